@@ -29,7 +29,10 @@ def handleL1 (j : Json) : Except String Json := do
     [("model", obsJson model), ("fuel", Json.bool (isFuelErr E)),
      ("regions", match lexRegions E with
        | .ok rs => Json.arr (rs.map fun r => Json.arr #[r.a, r.b, if r.kind == .lit then "lit" else "comment"]).toArray
-       | .error p => Json.mkObj [("unclosed", p)])]
+       | .error p => Json.mkObj [("unclosed", p)])] ++
+    (match lexRegions E with
+     | .ok rs => if rs.isEmpty then [] else [("blank", Json.str (blankRegions q rs).toHex)]
+     | .error _ => [])
   match j.getObjVal? "obs" with
   | .error _ => pure (Json.mkObj base)
   | .ok oj =>
@@ -63,6 +66,10 @@ def handle (line : String) : Json :=
     let r : Except String Json := do
       match ← getStr j "k" with
       | "l1" => handleL1 j
+      | "l1op" => do
+        let a ← parseObs (← j.getObjVal? "a")
+        let b ← parseObs (← j.getObjVal? "b")
+        pure (Json.mkObj [("same", Json.bool (holdsC02opaque a b))])
       | "l2" => handleL2 j
       | "l3prep" => handleL3Prep j
       | "l3" => handleL3 j
